@@ -46,6 +46,8 @@ def fail(msg):
 
 # ------------------------------------------------------------------------------------------------ targets
 # kind: func | table | scalar | enum | string | md5steps | sha2k | lzwthr | r3bits
+# dom : per parameter the range on which the C++ is defined and terminates (= the range of the tie theorem); the default
+#       is the whole range of the parameter type.  Used by the differential check harness/leafcheck.py.
 # sym : mangled name (functions, variables) or enum name; out: Gallina name (lf_ is prepended)
 def T(file, filt, kind, sym, out, owner, lang="c++", **kw):
     d = dict(file=file, filter=filt, kind=kind, sym=sym, out="lf_" + out, owner=owner, lang=lang)
@@ -55,9 +57,10 @@ def T(file, filt, kind, sym, out, owner, lang="c++", **kw):
 
 TARGETS = [
     # ---- C02: writer arithmetic
-    T("QPDFWriter.cc", "bytesNeeded", "func", "_ZN4qpdf4impl6Writer11bytesNeededEx", "bytesNeeded", "C02"),
+    T("QPDFWriter.cc", "bytesNeeded", "func", "_ZN4qpdf4impl6Writer11bytesNeededEx", "bytesNeeded", "C02",
+      dom=[(0, 2 ** 63 - 1)]),          # a negative n never leaves the loop
     # ---- C07: linearization
-    T("QPDF_linearization.cc", "nbits", "func", "_ZL5nbitsi", "nbits", "C07"),
+    T("QPDF_linearization.cc", "nbits", "func", "_ZL5nbitsi", "nbits", "C07", dom=[(0, 2 ** 31 - 1)]),     # a negative val recurses for ever
     # ---- C03: character classes
     T("QUtil.cc", "qpdf::util::", "func", "_ZN4qpdf4util15hex_decode_charEc", "util_hex_decode_char", "C03"),
     T("QUtil.cc", "hex_decode_char", "func", "_ZN5QUtil15hex_decode_charEc", "QUtil_hex_decode_char", "C03"),
@@ -73,9 +76,9 @@ TARGETS = [
     T("QPDFTokenizer.cc", "Tokenizer::isDelimiter", "func", "_ZN4qpdf9Tokenizer11isDelimiterEc", "Tokenizer_isDelimiter", "C03",
       extra_filters=["is_delimiter"]),
     # ---- C15: filters
-    T("Pl_PNGFilter.cc", "abs_diff", "func", "_ZL8abs_diffii", "abs_diff", "C15"),
+    T("Pl_PNGFilter.cc", "abs_diff", "func", "_ZL8abs_diffii", "abs_diff", "C15", dom=[(-2 ** 30, 2 ** 30 - 1)] * 2),   # no signed overflow
     T("Pl_PNGFilter.cc", "PaethPredictor", "func", "_ZN12Pl_PNGFilter14PaethPredictorEiii", "PaethPredictor", "C15",
-      extra_filters=["abs_diff"]),
+      extra_filters=["abs_diff"], dom=[(-2 ** 28, 2 ** 28 - 1)] * 3, small=[(0, 255)] * 3),
     T("Pl_Base64.cc", "to_c", "func", "_ZL4to_cj", "b64_to_c", "C15"),
     T("Pl_Base64.cc", "to_uc", "func", "_ZL5to_uci", "b64_to_uc", "C15"),
     T("Pl_Base64.cc", "to_i", "func", "_ZL4to_ii", "b64_to_i", "C15"),
@@ -1173,7 +1176,8 @@ class Translator:
         self.meta[t["out"]] = {"kind": "func", "owner": t["owner"], "file": t["file"], "sym": t["sym"], "name": node.get("name"),
                                "ret": fn.ret, "params": [(c, ty) for c, _, ty, _ in fn.params], "fuel": fn.uses_fuel,
                                "src": self.src_text(t, node), "callees": sorted(set(fn.callees)), "ctype": node["type"]["qualType"],
-                               "method": node.get("kind") == "CXXMethodDecl"}
+                               "method": node.get("kind") == "CXXMethodDecl", "dom": t.get("dom"), "small": t.get("small"),
+                               "scope": demangle_scope(t["sym"])}
 
     def table_values(self, t, node):
         q = node["type"].get("desugaredQualType") or node["type"]["qualType"]
